@@ -21,7 +21,12 @@ the target (absent; pre-loaded by the access list with or without storage keys; 
 EXTCODESIZE; loaded and touched by a CALL; left warm by an earlier failed CREATE2 with the same
 salt; left cold by a reverted sub-call). `collision_independent_of_warmth`: result and gas lost are
 the same for every way of becoming warm, `collision_reads_only_info_and_has_storage`: the entry's
-`cold` flag, its loaded slots and `warm_preloaded_addresses` are never read. The correspondence
+`cold` flag, its loaded slots and `warm_preloaded_addresses` are never read. Nor is the account's
+`LoadedAsNotExisting` flag (`collision_independent_of_not_existing_flag`): it is sticky, so after an
+earlier creation in the same transaction it is still set; `second_creation_collides` /
+`created_earlier_collides`: a creation onto an address created earlier in the transaction (alive or
+self-destructed since) collides; `has_storage_without_account_collides`, and the control
+`funded_empty_account_does_not_collide`. The correspondence
 stream runs the real EVM with the target made warm in each of these ways. -/
 namespace Revm.Props.C21
 open Revm Revm.Model.Db Revm.Model.Collision Revm.Proofs.Collision
@@ -108,6 +113,97 @@ theorem create_collision_warm_partial (db : Db) (a : Addr) (w : Warmth) (value g
   rw [makeCreateFrameW_eq, ← makeCreateFrame_eq]
   exact create_collision_partial db a (loadedTarget db a w) value gasLimit sd hf h
 
+/-! ## the decision does not depend on the `LoadedAsNotExisting` flag of the journal's account -/
+
+/-- `create_account_checkpoint` tests `info.code_hash`, `info.nonce` and `address_has_storage` of the
+journal's account and never its `LoadedAsNotExisting` status flag: for every database stack,
+address, journal account `j`, value, gas limit and fork, setting the flag to either value gives the
+same outcome (result, gas lost, target afterwards) — and the flag itself is carried through the
+creation unchanged (it is sticky for the rest of the transaction), so it says nothing about
+whether the address is vacant NOW. -/
+theorem collision_independent_of_not_existing_flag (db : Db) (a : Addr) (j : JAccount) (f : Bool) (preloaded : Bool)
+    (value gasLimit : Nat) (sd : Bool) (hs : Bool) :
+    makeCreateFrameJ db a (some { j with notExisting := f }) preloaded value gasLimit sd =
+      makeCreateFrameJ db a (some j) preloaded value gasLimit sd ∧
+    (createAccountCheckpointJ { j with notExisting := f } hs value gasLimit sd).1 =
+      (createAccountCheckpointJ j hs value gasLimit sd).1 ∧
+    (createAccountCheckpointJ { j with notExisting := f } hs value gasLimit sd).2.notExisting = f :=
+  ⟨makeCreateFrameJ_flag db a j f preloaded value gasLimit sd, rfl, rfl⟩
+
+/-- A second creation onto the same address in one transaction collides (forks with EIP-161, i.e.
+every fork that has CREATE2): if a creation on the journal account `j` made a frame, then whatever
+code its init code deployed (`ch`, also none), whatever happened to the balance since (value
+transfers, SELFDESTRUCT of the new contract, before or after Cancun), whatever the
+`LoadedAsNotExisting` flag of the first load (`f`), and whatever the database says, the next
+creation onto it is a `CreateCollision` that consumes the gas passed and leaves the account as it is. -/
+theorem second_creation_collides (db db' : Db) (a : Addr) (j : JAccount) (value gasLimit : Nat)
+    (h1 : (makeCreateFrame db a j.target value gasLimit true).result = .frame)
+    (ch bal : Nat) (f : Bool) (value' gasLimit' : Nat) (preloaded : Bool) :
+    let o1 := makeCreateFrame db a j.target value gasLimit true
+    let t2 : Target := { o1.target with codeHash := ch, balance := bal }
+    makeCreateFrameJ db' a (some { j with target := t2, notExisting := f }) preloaded value' gasLimit' true =
+      ⟨.collision, t2, some gasLimit'⟩ := by
+  intro o1 t2
+  rw [makeCreateFrameJ_some]
+  apply cac_nonce
+  have : o1.target.nonce = 1 := by
+    have h1' := h1
+    rw [makeCreateFrame_eq] at h1'
+    show (makeCreateFrame db a j.target value gasLimit true).target.nonce = 1
+    rw [makeCreateFrame_eq]
+    exact cac_frame_nonce _ _ _ _ h1'
+  show o1.target.nonce ≠ 0
+  omega
+
+/-- the histories of the correspondence grid: created earlier (alive or self-destructed since) ⇒ the
+creation in question collides, gas consumed, journal account unchanged -/
+theorem created_earlier_collides (db : Db) (a : Addr) (ch : Nat) (value gasLimit : Nat) (destroyed : Bool)
+    (h1 : (makeCreateFrameH db a (if destroyed then .createdDestroyed ch else .createdAlive ch) value gasLimit true).first = some .frame) :
+    let r := makeCreateFrameH db a (if destroyed then .createdDestroyed ch else .createdAlive ch) value gasLimit true
+    r.outcome = ⟨.collision, r.entry.target, some gasLimit⟩ := by
+  cases destroyed
+  · simp only [Bool.false_eq_true, if_false] at h1 ⊢
+    simp only [makeCreateFrameH] at h1 ⊢
+    have hf : (makeCreateFrame (loadAccount db a none false).1 a (loadAccount db a none false).2.1.target value gasLimit true).result = .frame := by
+      simpa using h1
+    simp only [hf, if_true]
+    rw [makeCreateFrameJ_some]
+    apply cac_nonce
+    rw [makeCreateFrame_eq] at hf
+    have := cac_frame_nonce _ _ _ _ hf
+    simp only [afterCreation, makeCreateFrame_eq]
+    omega
+  · simp only [if_true] at h1 ⊢
+    simp only [makeCreateFrameH] at h1 ⊢
+    have hf : (makeCreateFrame (loadAccount db a none false).1 a (loadAccount db a none false).2.1.target value gasLimit true).result = .frame := by
+      simpa using h1
+    simp only [hf, if_true]
+    rw [makeCreateFrameJ_some]
+    apply cac_nonce
+    rw [makeCreateFrame_eq] at hf
+    have := cac_frame_nonce _ _ _ _ hf
+    simp only [afterSelfdestruct, afterCreation, makeCreateFrame_eq]
+    omega
+
+/-- the converse control: an account with no code and nonce 0 whose database reports no storage —
+e.g. one loaded as not existing by BALANCE and then funded by a value CALL — does NOT collide
+(whatever its `LoadedAsNotExisting` flag), as long as the endowment does not overflow its balance -/
+theorem funded_empty_account_does_not_collide (db : Db) (a : Addr) (j : JAccount) (preloaded : Bool)
+    (value gasLimit : Nat) (sd : Bool)
+    (hc : j.target.codeHash = KECCAK_EMPTY) (hn : j.target.nonce = 0) (hs : hsOf db a = false)
+    (hb : j.target.balance + value < W) :
+    (makeCreateFrameJ db a (some j) preloaded value gasLimit sd).result = .frame := by
+  rw [makeCreateFrameJ_some, hs]
+  exact cac_vacant _ hc hn _ _ _ hb
+
+/-- a database that reports storage for an address whose `basic` is `None`: collision, although the
+journal account is `LoadedAsNotExisting` with no code and nonce 0 -/
+theorem has_storage_without_account_collides (db : Db) (a : Addr) (j : JAccount) (preloaded : Bool)
+    (value gasLimit : Nat) (sd : Bool) (hs : hsOf db a = true) :
+    makeCreateFrameJ db a (some j) preloaded value gasLimit sd = ⟨.collision, j.target, some gasLimit⟩ := by
+  rw [makeCreateFrameJ_some, hs]
+  exact cac_hs _ _ _ _
+
 /-- collision happens for no other reason: exactly code, nonce, or the database's `has_storage` -/
 theorem collision_iff (t : Target) (hs : Bool) (value gasLimit : Nat) (sd : Bool) :
     (createAccountCheckpoint t hs value gasLimit sd).result = .collision ↔
@@ -161,6 +257,24 @@ example : ((journalEntry (.base exBase) 1 (.accessList [3, 7])).2.map (·.slots)
 example : (makeCreateFrameW (.base exBase) 2 .opcodeLoad 1 1000 true).result = .frame := by decide
 example : (loadedTarget (.base exBase) 1 .called).touched = true ∧ (loadedTarget (.base exBase) 1 .retried).touched = false := by decide
 example : SameInfo (loadedTarget (.base exBase) 1 .called) (infoTarget (.base exBase) 1) := ⟨rfl, rfl, rfl⟩
+
+/-- histories on an address absent from the database (account 2 of `exBase`): the first creation
+makes a frame, the entry keeps `LoadedAsNotExisting`, the second creation collides; funded by a
+CALL it does not collide; a database with `has_storage` for an absent account collides -/
+example :
+    let r := makeCreateFrameH (.base exBase) 2 (.createdAlive 0x1234) 1 1000 true
+    r.first = some .frame ∧ r.entry.notExisting = true ∧ r.entry.target.nonce = 1 ∧
+    r.outcome.result = .collision ∧ r.outcome.gasLost = some 1000 ∧ r.outcome.target = r.entry.target := by decide
+example :
+    let r := makeCreateFrameH (.base exBase) 2 (.createdDestroyed 0x1234) 1 1000 true
+    r.first = some .frame ∧ r.entry.notExisting = true ∧ r.entry.target.balance = 0 ∧ r.outcome.result = .collision := by decide
+example :
+    let r := makeCreateFrameH (.base exBase) 2 (.funded 1) 1 1000 true
+    r.entry.notExisting = true ∧ r.entry.target.balance = 1 ∧ r.outcome.result = .frame ∧ r.outcome.target.balance = 2 := by decide
+example :
+    let b : Base := { exBase with hasStorage := fun a => a == 2 }
+    let r := makeCreateFrameH (.base b) 2 .untouched 1 1000 true
+    r.entry.notExisting = true ∧ r.outcome.result = .collision ∧ r.outcome.gasLost = some 1000 := by decide
 
 /-- the same target behind `CacheDB`, `State`, `State` over `CacheDB` or `DatabaseComponents`:
 the storage is there (slot 7 reads 9 through the layer) but creation proceeds — the account is
